@@ -379,7 +379,7 @@ def gen_texts(ctx, n):
         if mode == 1:
             cnt = T.pessimize(ctx.rng, tree)
         elif mode == 2:
-            cnt = T.pessimize(ctx.rng, tree, addzero=5, cjump=4, demote=4, demote_phi=2, constexpr=6, punstore=4, expose=2)
+            cnt = T.pessimize(ctx.rng, tree, addzero=5, cjump=4, demote=4, demote_phi=2, constexpr=6, punstore=4, expose=2, twin=4)
         else:
             cnt = {}
         for kk, v in cnt.items():
